@@ -53,23 +53,32 @@ Definition dec_op_at (off : nat) (v : tval) : op :=
   | 10 => AuthRaw a b
   | 11 => ToTunnel a b
   | 12 => BreakWrites a
+  | 13 => ReReg a b
   | _ => Tick 0
   end.
 Definition dec_op (v : tval) : op := dec_op_at 0 v.
 Definition dec_inj (v : tval) : option (N * op) :=
   let a := vn (vnth 5 v) in if a =? 0 then None else Some (a - 1, dec_op_at 6 v).
 
-Definition dec_variant (v : tval) : variant := if vn v =? 0 then Pinned else Current.
+Definition dec_variant (v : tval) : variant := if vn v =? 0 then Pinned else if vn v =? 2 then Head else Current.
 Definition dec_cfg (v : tval) : cfg := {| maxConn := vn (vnth 0 v); maxCtl := vn (vnth 1 v); hbTimeout := vn (vnth 2 v) |}.
 
 Definition model_obs (v : tval) : list (list N) :=
   let k := dec_cfg (vnth 1 v) in
   map (flat_state k) (trace_inj (dec_variant (vnth 0 v)) k init (map (fun o => (dec_op o, dec_inj o)) (vl (vnth 2 v)))).
 
-(* the first |obs| steps are compared (the driver truncates a Pinned-tree sequence after the recorded defect shows) *)
+(* the first |obs| steps are compared (the driver truncates a sequence after a recorded defect of the tree shows).
+   Fifth component 1 = lock-contention case: the operations of the last two positions ran concurrently on the real code, queued on
+   the registry mutex; only the final state (without the result triple err/n/fired) is given and must equal the model's final state
+   for the operation order of this case value (the driver tries both orders: each registry method is one critical section). *)
 Definition check (v : tval) : bool :=
   let obs := map (fun o => map vn (vl o)) (vl (vnth 3 v)) in
-  all2 list_eqb (firstn (length obs) (model_obs v)) obs.
+  if vn (vnth 4 v) =? 1 then
+    match obs with
+    | [o] => list_eqb (skipn 3 (last (model_obs v) [])) (skipn 3 o)
+    | _ => false
+    end
+  else all2 list_eqb (firstn (length obs) (model_obs v)) obs.
 
 Definition predict (v : tval) : tval := VL (map (fun l => VL (map VN l)) (model_obs v)).
 Close Scope N_scope.
